@@ -228,7 +228,10 @@ def mk_task(cron: str, offset: Any) -> ScheduledTask:
 
 def eval_cron(task: ScheduledTask, us: int) -> Any:
     Clock.us = us
-    return run_mod.get_task_delay(task)
+    try:
+        return run_mod.get_task_delay(task)
+    except Exception as exc:  # noqa: BLE001
+        return f"raised {type(exc).__name__}: {exc}"
 
 
 class C13(Check):
@@ -443,7 +446,10 @@ class C14(Check):
             tt = mk_time(T, tzs)
             task = ScheduledTask(task_name="t", labels={}, args=[], kwargs={}, time=tt)
             Clock.us = now
-            got = run_mod.get_task_delay(task)
+            try:
+                got = run_mod.get_task_delay(task)
+            except Exception as exc:  # noqa: BLE001
+                got = f"raised {type(exc).__name__}: {exc}"
             cr.events["get_task_delay"] += 1
             T_eff = to_us(task.time)  # what the schedule actually holds (pydantic keeps datetime as is)
             if T_eff != T:
